@@ -1862,17 +1862,17 @@ def unit_probe(ctx):
     if which == "zzSqrt-deep":
         # scratch of exactly zzSqrt_deep(n) octets
         for n in (3,):
-            t.drive("zzSqrt", {"a": (1 << (bw * n)) - 1, "n": n}, "probe/declared-deep", (), "declared-deep", spec="zzSqrt@deep")
+            t.drive("zzSqrt", {"a": (1 << (bw * n)) - 1, "n": n}, "probe/declared-deep", (), "declared-deep", spec="zzSqrt@deep", isolate=20)
     elif which == "zzPowerMod-deep":
         # scratch of exactly zzPowerMod_deep(n, m) octets
         for n, mod in ((1, 7),):
             t.drive("zzPowerMod", {"a": 3, "n": n, "b": 5, "m": 1, "mod": mod}, "probe/declared-deep", (),
-                    "declared-deep", spec="zzPowerMod@deep")
+                    "declared-deep", spec="zzPowerMod@deep", isolate=20)
     elif which == "wwGetBits-width0":
         # width = 0 at a word boundary: W_OF_B(pos + width) = 1 word reserved
-        t.drive("wwGetBits", {"a": 5, "n": 1, "pos": bw, "width": 0}, "probe/width=0-at-word-boundary", (), "width=0")
+        t.drive("wwGetBits", {"a": 5, "n": 1, "pos": bw, "width": 0}, "probe/width=0-at-word-boundary", (), "width=0", isolate=20)
     elif which == "wwSetBits-width0":
-        t.drive("wwSetBits", {"a": 5, "n": 1, "pos": bw, "width": 0, "val": 1}, "probe/width=0-at-word-boundary", (), "width=0")
+        t.drive("wwSetBits", {"a": 5, "n": 1, "pos": bw, "width": 0, "val": 1}, "probe/width=0-at-word-boundary", (), "width=0", isolate=20)
     else:
         # a = 0 is admissible (a < mod) and the header promises b <- 0 when gcd(a, mod) != 1; mod = 1 is an odd modulus
         f = which.split("-")[0]
